@@ -508,34 +508,105 @@ func derivesFromParam(v ssa.Value, p *ssa.Parameter, seen map[ssa.Value]bool) bo
 // whose condition is decided by assume() it follows only the decided edge. It
 // returns the reachable blocks and the feasible edges.
 func reachAssuming(fn *ssa.Function, assume func(cond ssa.Value) (val, known bool)) (map[*ssa.BasicBlock]bool, map[[2]*ssa.BasicBlock]bool) {
-	seen := map[*ssa.BasicBlock]bool{}
+	// Optimistic fixpoint (as in sparse conditional constant propagation, for booleans only): a branch on a flag
+	// variable (`hasPrefix`, a phi of constants) is decided by the values that arrive over edges found feasible so far;
+	// edges only grow from pass to pass, so a flag that stops being constant un-prunes its branch in the next pass.
 	edges := map[[2]*ssa.BasicBlock]bool{}
-	stack := []*ssa.BasicBlock{fn.Blocks[0]}
-	for len(stack) > 0 {
-		b := stack[len(stack)-1]
-		stack = stack[:len(stack)-1]
-		if seen[b] {
-			continue
+	for iter := 0; iter < 32; iter++ {
+		seen := map[*ssa.BasicBlock]bool{}
+		cur := map[[2]*ssa.BasicBlock]bool{}
+		for k := range edges {
+			cur[k] = true
 		}
-		seen[b] = true
-		succs := b.Succs
-		if len(b.Instrs) > 0 {
-			if iff, ok := b.Instrs[len(b.Instrs)-1].(*ssa.If); ok {
-				if val, known := evalCond(iff.Cond, assume); known {
-					if val {
-						succs = b.Succs[:1]
-					} else {
-						succs = b.Succs[1:2]
+		n0 := len(cur)
+		stack := []*ssa.BasicBlock{fn.Blocks[0]}
+		for len(stack) > 0 {
+			b := stack[len(stack)-1]
+			stack = stack[:len(stack)-1]
+			if seen[b] {
+				continue
+			}
+			seen[b] = true
+			succs := b.Succs
+			if len(b.Instrs) > 0 {
+				if iff, ok := b.Instrs[len(b.Instrs)-1].(*ssa.If); ok {
+					val, known := evalCond(iff.Cond, assume)
+					if !known {
+						val, known = evalBoolPhi(iff.Cond, cur, assume, 0)
+					}
+					if known {
+						if val {
+							succs = b.Succs[:1]
+						} else {
+							succs = b.Succs[1:2]
+						}
 					}
 				}
 			}
+			for _, s := range succs {
+				cur[[2]*ssa.BasicBlock{b, s}] = true
+				stack = append(stack, s)
+			}
 		}
-		for _, s := range succs {
-			edges[[2]*ssa.BasicBlock{b, s}] = true
-			stack = append(stack, s)
+		if len(cur) == n0 && iter > 0 {
+			// the feasible edges are those leaving blocks seen in this (stable) pass
+			return seen, cur
+		}
+		edges = cur
+	}
+	// no fixpoint within the bound: nothing is pruned
+	all := map[*ssa.BasicBlock]bool{}
+	alle := map[[2]*ssa.BasicBlock]bool{}
+	for _, b := range fn.Blocks {
+		all[b] = true
+		for _, s := range b.Succs {
+			alle[[2]*ssa.BasicBlock{b, s}] = true
 		}
 	}
-	return seen, edges
+	return all, alle
+}
+
+// evalBoolPhi: a boolean that is a phi (possibly negated) whose values over the edges known feasible are all the same
+// constant (or themselves decided by assume / such phis).
+func evalBoolPhi(v ssa.Value, feasible map[[2]*ssa.BasicBlock]bool, assume func(ssa.Value) (bool, bool), d int) (bool, bool) {
+	if d > 6 {
+		return false, false
+	}
+	if u, ok := v.(*ssa.UnOp); ok && u.Op == token.NOT {
+		x, k := evalBoolPhi(u.X, feasible, assume, d+1)
+		return !x, k
+	}
+	if isConstBool(v, true) {
+		return true, true
+	}
+	if isConstBool(v, false) {
+		return false, true
+	}
+	if val, known := evalCond(v, assume); known {
+		return val, true
+	}
+	phi, ok := v.(*ssa.Phi)
+	if !ok {
+		return false, false
+	}
+	have, first := false, false
+	for i, e := range phi.Edges {
+		if !feasible[[2]*ssa.BasicBlock{phi.Block().Preds[i], phi.Block()}] {
+			continue
+		}
+		if e == ssa.Value(phi) {
+			continue
+		}
+		x, k := evalBoolPhi(e, feasible, assume, d+1)
+		if !k {
+			return false, false
+		}
+		if have && x != first {
+			return false, false
+		}
+		have, first = true, x
+	}
+	return first, have
 }
 
 // unreachableAssuming reports whether target is unreachable under assume.
@@ -1046,9 +1117,14 @@ func famAssume(name ssa.Value, fam string, approved map[string]bool, depth int) 
 			if call.Common().Args[0] != name {
 				return false, false
 			}
-			cs, ok := core.ConstString(call.Common().Args[1])
-			if !ok || !approved[cs] {
+			set, ok := constStringSet(call.Common().Args[1])
+			if !ok {
 				return false, false
+			}
+			for _, cs := range set {
+				if !approved[cs] {
+					return false, false
+				}
 			}
 			return false, true
 		}
@@ -1083,6 +1159,56 @@ func famAssume(name ssa.Value, fam string, approved map[string]bool, depth int) 
 		}
 		return false, true
 	}
+}
+
+// constStringSet: the strings v can be — a constant, or an element of a local array / slice literal all of whose
+// elements are constants (`for _, p := range []string{"oas", "openapi"}`).
+func constStringSet(v ssa.Value) ([]string, bool) {
+	if cs, ok := core.ConstString(v); ok {
+		return []string{cs}, true
+	}
+	ld, ok := v.(*ssa.UnOp)
+	if !ok || ld.Op != token.MUL {
+		return nil, false
+	}
+	ia, ok := ld.X.(*ssa.IndexAddr)
+	if !ok {
+		return nil, false
+	}
+	base := ia.X
+	if sl, ok := base.(*ssa.Slice); ok {
+		base = sl.X
+	}
+	al, ok := base.(*ssa.Alloc)
+	if !ok {
+		return nil, false
+	}
+	var out []string
+	for _, ref := range *al.Referrers() {
+		switch x := ref.(type) {
+		case *ssa.IndexAddr:
+			for _, u := range *x.Referrers() {
+				switch y := u.(type) {
+				case *ssa.Store:
+					if y.Addr != ssa.Value(x) {
+						continue
+					}
+					cs, ok := core.ConstString(y.Val)
+					if !ok {
+						return nil, false
+					}
+					out = append(out, cs)
+				case *ssa.UnOp, *ssa.DebugRef:
+				default:
+					return nil, false
+				}
+			}
+		case *ssa.Slice, *ssa.DebugRef:
+		default:
+			return nil, false
+		}
+	}
+	return out, len(out) > 0
 }
 
 func isBoolT(t types.Type) bool {
